@@ -30,6 +30,14 @@ def _tame_pow(m):
     return b[:5] + mid + e[:2]
 
 
+_MAGNIFY_RE = re.compile(r'\b(%s|PRODUCT|EXP|SUMSQ|MAX|MAXA|LARGE|CHOOSE|INDEX|N|VALUE|DECIMAL|HEX2DEC|ARABIC|SUM|DAYS|DATEVALUE)\s*\(|[*^]|[0-9]{4,}' % '|'.join(sorted(RISKY)), re.I)
+
+
+def magnifies(text):
+    """Could this formula evaluate to a number large enough to stall a magnitude-sensitive function it is fed into?"""
+    return bool(_MAGNIFY_RE.search(text))
+
+
 def tame(text):
     """Keep literal NUMBER^NUMBER small (the only magnitude-driven C-level work reachable from
     token soups): base <= 5 digits, exponent <= 2 digits."""
